@@ -49,7 +49,7 @@ def build_cases(scripts):
         lines_c.append(f"lspec jsshell {s.get('scr_num', 0)} {L.hexs(sx(tree[:4] + [[h[0], h[1], h[2]] for h in handlers]))}")
         lines_c.append("lspec const valid")
         spec = dict(script=sx(tree), scr_num=s.get("scr_num", 0), lscr=g["lscr"], lnam=g["lnam"], nhandlers=len(handlers), skind=k,
-                    features=[sorted(set(L.features(h, tree[3][1:], [x[1] for x in handlers]) + js_features(h, k))) for h in handlers],
+                    features=[all_features(h, tree) for h in handlers],
                     hnames=[h[1] for h in handlers])
         cases.append(Case(kind=s.get("kind", "random") + "/" + k, spec=spec, lines=lines_c, expect=[None] * len(lines_c)))
     # expected observables = the model (spec) side: ask the driver once for all lines
@@ -130,9 +130,31 @@ def code_order_globals(body):
     return bad
 
 
+# the C02 features that also change the JavaScript (F40 / F122 / F124 / F125 / F21 do not: the JavaScript side is right there)
+C02_RELEVANT = ("F20", "F22", "F38")
+EXCEPTION_FEATURES = ("F22",)
+
+
+def all_features(h, tree):
+    f = [x for x in L.features(h, tree[3][1:], [y[1] for y in tree[4:]]) if x in C02_RELEVANT]
+    return sorted(set(f + js_features(h, kind_of(tree))))
+
+
+def limit_features(h, tree, alone=False):
+    """at most one known-defect feature per handler (none on which the decompiler raises unless the script is a probe)"""
+    ok = lambda hh: (lambda f: len(f) <= 1 and (alone or not any(x in EXCEPTION_FEATURES for x in f)))(all_features(hh, tree))
+    if ok(h):
+        return h
+    head, body = h[:3], h[3:]
+    keep = []
+    for st in body:
+        if ok(head + keep + [st]):
+            keep.append(st)
+    return head + (keep or [["call", "nothing"]])
+
+
 def js_features(h, skind):
-    """F41: numeric literal as receiver of a method-style operator / member access; F42: unary expression as receiver;
-    F120: global referenced by name before the handler reads/writes it; F20: string object index printed as a plain JS string;
+    """F120: global referenced by name before the handler reads/writes it; F20: string object index printed as a plain JS string;
     the C03 classes (raw jump pseudo-statements appear in the JavaScript as well)"""
     f = set(L.c03_classes(h[3:]))
     if code_order_globals(h[3:]):
@@ -149,8 +171,6 @@ def js_features(h, skind):
                 f.add("F20")
         if len(t) >= 4 and t[0] == "set" and isinstance(t[1], list) and t[1][:2] == ["the", "field"] and not kept(t[1][3]):
             f.add("F20")
-        if len(t) == 3 and t[0] == "set" and isinstance(t[1], list) and t[1][0] == "mov" and t[1][1] in ("frameLabel", "updateMovieEnabled"):
-            f.add("F127")
         if len(t) == 4 and t[0] == "put":
             # the `.text` of a put target is inserted by a regular expression over the generated text
             tgt = t[3]
@@ -169,23 +189,6 @@ def js_features(h, skind):
                     f.add("F128")
             elif inner_fields:
                 f.add("F128")
-    for t in L.walk(h[3:]):
-        if len(t) < 2 or not isinstance(t[0], str):
-            continue
-        recv = None
-        if t[0] == "b" and t[1] in METHOD_OPS:
-            recv = t[2]
-        elif t[0] == "op":
-            recv = t[2]
-        elif t[0] == "ch":
-            recv = t[4]
-        elif t[0] == "the" and t[1] in ("numChunks",) or (t[0] == "the" and t[1] == "special" and len(t) > 3):
-            recv = t[3]
-        if recv is not None:
-            if _is_num(recv):
-                f.add("F41")
-            if _is_unary(recv):
-                f.add("F42")
     return sorted(f)
 
 
@@ -211,6 +214,45 @@ def with_kind(tree, kind, rng):
     return tree[:4] + hs
 
 
+def _p(body, name="probe", params=("a",), kind="plain", props=(), hdr_globals=()):
+    tree = ["script", ["factory", "-"], ["props"] + list(props), ["globals"] + list(hdr_globals), ["on", name, list(params)] + body]
+    return dict(tree=with_kind(tree, kind, None) if kind != "plain" else tree, pre=[], kind="probe")
+
+
+PROBES = {
+    "f20_global_sprite_index": _p([["call", "put", ["the", "sprite", 13, ["g", "gCount"]]]]),
+    "f20_string_cast_index": _p([["call", "put", ["the", "cast", 1, ["s", S("Fish.mov")]]]]),
+    "f20_expr_sprite_index": _p([["call", "put", ["the", "sprite", 13, ["b", "add", ["l", "i"], ["i", 1]]]]]),
+    "f22_nested_tell": _p([["tell", ["c", "window", ["s", S("a")]], ["tell", ["c", "window", ["s", S("b")]], ["call", "updateStage"]], ["call", "beep"]]]),
+    "f26_wrapper_for_handler_t": dict(tree=["script", ["factory", "-"], ["props", "legCount"], ["globals"], ["on", "t", ["me"], ["call", "return", ["r", "legCount"]]],
+                                           ["on", "birth", ["me"], ["call", "return", ["p", "me"]]]], pre=[], kind="probe"),
+    "f38_set_field_property": _p([["set", ["the", "field", 6, ["i", 1]], ["s", S("right")]]]),
+    "f41_numeric_receiver": _p([["set", ["l", "x"], ["b", "concat", ["i", 1], ["p", "a"]]], ["set", ["l", "x"], ["ch", "char", ["i", 5], ["i", 0], ["i", 7]]]]),
+    "f42_unary_receiver": _p([["set", ["l", "x"], ["b", "concat", ["u", "neg", ["p", "a"]], ["l", "x"]]]]),
+    "f120_global_by_name": _p([["put", "after", ["s", S("x")], ["ch", "item", ["i", 1], ["i", 0], ["g", "gList"]]]], hdr_globals=["gList"]),
+    "f127_set_framelabel": _p([["set", ["mov", "frameLabel"], ["i", 1]], ["call", "put", ["mov", "frameLabel"]]]),
+    "f128_put_field_text_regex": _p([["put", "into", ["i", 1], ["fld", ["c", "random", ["i", 3]]]]]),
+    "f129_global_receiver": _p([["set", ["g", "gObj"], ["i", 0]], ["mcall", ["g", "gObj"], "mReset"]]),
+    "f130_global_loop_variable": _p([["with", ["g", "gIdx"], ["i", 1], ["i", 3], "up", ["call", "put", ["g", "gIdx"]]]]),
+    "f23_exit_directly_in_loop": _p([["while", ["b", "ne", ["l", "c"], ["i", 1]], ["call", "put", ["i", 2]], "exitrep"]]),
+}
+
+
+def probe_scripts():
+    return [dict(v, probe=k) for k, v in PROBES.items()]
+
+
+def mkcorpus():
+    from core import VERIF
+    d = VERIF / "corpus" / "C04"
+    d.mkdir(parents=True, exist_ok=True)
+    cs, _ = build_cases(probe_scripts())
+    for (k, _), c in zip(PROBES.items(), cs):
+        c.kind = "corpus-" + k
+        (d / (k + ".json")).write_text(json.dumps(dict(case=dict(kind=c.kind, spec=c.spec, lines=c.lines, expect=c.expect)), indent=1))
+    print("wrote", len(cs), "replays to", d)
+
+
 def cases(rng, tier):
     scripts = []
     leafsets = c02.LEAFSETS[:1] if tier == "quick" else c02.LEAFSETS[:3]
@@ -232,6 +274,9 @@ def cases(rng, tier):
     for s in c03.random_scripts(rng, dict(quick=150, thorough=4000, search=2000)[tier], allow_exit_ratio=0.15):
         scripts.append(dict(tree=with_kind(s["tree"], rng.choice(["plain", "props", "factory"]), rng), pre=s.get("pre", []), kind=s["kind"]))
     scripts += c02.wide_scripts(rng)
+    for sc in scripts:
+        t = sc["tree"]
+        sc["tree"] = t[:4] + [limit_features(h, t) for h in t[4:]]
     cs, rejected = build_cases(scripts)
     cases.rejected = rejected
     cases.last = cs
@@ -374,4 +419,7 @@ def extra_stage(ctx, driver, stats):
 
 if __name__ == "__main__":
     import core, sys
+    if sys.argv[1:2] == ["mkcorpus"]:
+        import logging; logging.disable(logging.CRITICAL)
+        mkcorpus(); sys.exit(0)
     sys.exit(core.main("c04"))
